@@ -8,6 +8,7 @@ TRUSTED = [
  'Coq 8.16.1 kernel; no native_compute', 'axioms: none',
  'theorems (Properties_C01.v): exact round trips of the layers that are proved (delta, ARM BCJ, VLI, LZMA2 uncompressed-chunk bound); range coder: rc_roundtrip_adaptive (concrete encoder model of range_encoder.h, with C integer widths and carry propagation, followed by the decoder model of range_decoder.h returns every bit sequence under every context-selection program, consuming exactly the bytes written, final code 0)',
  'LZMA symbol layer: lzma_symbol_coding_lossless (+ known-size variant): for every valid symbol sequence, lc/lp/pb and start state the decoder specification run on encode(enc_run syms ++ end marker) rebuilds the expansion, stops Finished and consumes exactly those bytes; tied to lzma_encoder.c by re-serialising, with the extracted model encoder, the symbols traced from every real raw-LZMA1 output (must reproduce the bytes exactly)',
+ 'LZMA2 layer: lzma2_stream_lossless (LZMA chunks with all four reset levels, stored chunks, end byte; decoder specification consumes exactly the bytes and rebuilds the expansions); tied to lzma2_encoder.c by re-serialising the chunks traced from real raw-LZMA2 outputs incl. sync-flush and property-change histories',
  'correspondence for the range coder: harness/drv_rc.c drives the real rc_bit/rc_direct/rc_flush/rc_encode white-box with 0..4-byte output buffers; its bytes must equal RcEnc.encode (extracted) on the same decisions',
  'independent decoder: the Coq specification decoder (Xz.v/Lzma*.v, extracted) decodes the real encoder output back to the input; the library\'s own decoder is run as well',
  'NOT modelled: match finders, optimum parser, price tables (losslessness of the symbol choice is certified per run by decoding); threaded encoder scheduling (C08)',
@@ -175,6 +176,44 @@ def run(ctx):
             for kv in t[3].split(','):
                 k, v = kv.split('='); symstat[k] = symstat.get(k, 0) + int(v)
     dist['lzma_symbol_traces'] = len(tl); dist['lzma_symbols'] = symstat
+    # ---- LZMA2 chunk layer: raw LZMA2 output (one-shot and with sync flushes / property changes between chunks) must be
+    # exactly the model's chunk serialisation (chunks_bytes, subject of lzma2_stream_lossless) of the chunks and symbols read from it
+    fl2 = compile_driver('hook', 'drv_flush.c', 'drv_flush')
+    l2lines, l2meta = [], []
+    for i in range(24 if ctx.quick() else 500):
+        n = rng.choice([1, 50, 3000, rng.randrange(0, 9000)])
+        k = rng.random()
+        d = bytes(rng.getrandbits(8) for _ in range(n)) if k < 0.25 else ((xzgen.gen_data(rng, max(1, n // 5)) * 6)[:n] if k < 0.7 else xzgen.gen_data(rng, n))
+        lc = rng.randrange(5); lp = rng.randrange(5 - lc); pb = rng.randrange(5)
+        fs = 'lzma2:dict=%s,lc=%d,lp=%d,pb=%d,mode=%s,mf=%s,nice=%d' % (rng.choice(['4KiB', '64KiB']), lc, lp, pb, rng.choice(['fast', 'normal']), rng.choice(['hc3', 'hc4', 'bt2', 'bt4']), rng.choice([4, 32, 273]))
+        steps = []; left = n
+        for _j in range(rng.randrange(0, 4)):
+            kk = rng.randrange(0, left + 1); left -= kk; steps.append('S%d' % kk)
+            if rng.random() < 0.5:
+                lc2 = rng.randrange(5); lp2 = rng.randrange(5 - lc2); steps.append('Ulzma2:dict=%s,lc=%d,lp=%d,pb=%d' % (fs.split('dict=')[1].split(',')[0], lc2, lp2, rng.randrange(5)))
+        steps.append('R%d' % left)
+        l2lines.append('flush 3 0 %d %s %s %s' % (rng.randrange(1 << 20), fs, ';'.join(steps), d.hex() or '-')); l2meta.append((d, fs + ' ' + ';'.join(steps)))
+    l2outs, l2f = run_lines(fl2, l2lines)
+    for f in l2f: ctx.violation('raw LZMA2 encoder crashed', {'line': (f[0] or '')[:20000], 'stderr': f[1], 'kind': 'crash'})
+    tl2, tm2 = [], []
+    for (d, lab), l, o in zip(l2meta, l2lines, l2outs):
+        if o is None: continue
+        parts = o.split('|')
+        if len(parts) != 3 or parts[0].strip() != '0' or not parts[1].split() or not parts[1].split()[-1].endswith(':1'): continue
+        hx = parts[2].strip()
+        if hx != '-': tl2.append('lzma2syms ' + hx); tm2.append((d, lab, hx))
+    t2o, t2f = run_lines(orc, tl2)
+    if t2f: raise BuildError('oracle failed %r' % (t2f[0],))
+    l2stat = {}
+    for (d, lab, hx), o in zip(tm2, t2o):
+        n_eval += 1
+        t = o.split()
+        if t[0] != 'ok' or (bytes.fromhex(t[3]) if t[3] != '-' else b'') != d:
+            viol.append(dict(why='raw LZMA2 encoder output is not the model chunk serialisation of its own chunks (%s): the proven LZMA2 encoder model no longer describes lzma2_encoder.c, or the stream does not decode to the input' % ' '.join(t[:3]), label=lab, line=lab, file=d.hex(), stream=hx[:100000]))
+        else:
+            for kv in t[2].split(','):
+                k_, v_ = kv.split('='); l2stat[k_] = l2stat.get(k_, 0) + int(v_)
+    dist['lzma2_chunk_traces'] = len(tl2); dist['lzma2_chunks_symbols'] = l2stat
     oouts, ofails = run_lines(orc, olines)
     if ofails: raise BuildError('oracle failed %r' % (ofails[0],))
     for (j, want), o in zip(ometa, oouts):
